@@ -811,18 +811,18 @@ def _index_table(f: Func) -> Optional[Tuple[str, List[int]]]:
     return None
 
 
-def r13_4(ctx: Ctx):
+def r13_4(ctx: Ctx, rule: str = "R13.4"):
     ex = ctx.func("extract_lattice_gro")
     du = ctx.func("dump_lattice_gro")
     te, td = _index_table(ex), _index_table(du)
     if te is None or td is None:
-        ctx.ob("R13.4", ex, "index tables", True, "index tables not in the literal-tuple shape", undecided=True)
+        ctx.ob(rule, ex, "index tables", True, "index tables not in the literal-tuple shape", undecided=True)
         return
-    ctx.ob("R13.4", du, "index table %s" % (td[1],), sorted(td[1]) == list(range(9)),
+    ctx.ob(rule, du, "index table %s" % (td[1],), sorted(td[1]) == list(range(9)),
            "writer's table is a permutation of 0..8", node=du.node)
-    ctx.ob("R13.4", ex, "index table %s" % (te[1],), sorted(te[1]) == list(range(9)),
+    ctx.ob(rule, ex, "index table %s" % (te[1],), sorted(te[1]) == list(range(9)),
            "reader's table is a permutation of 0..8", node=ex.node)
-    ctx.ob("R13.4", ex, "reader table %s vs writer table %s" % (te[1], td[1]), te[1] == td[1],
+    ctx.ob(rule, ex, "reader table %s vs writer table %s" % (te[1], td[1]), te[1] == td[1],
            "both sides use the same component order", node=ex.node)
     # roles: reader scatters (store index taken from the table), writer gathers (load index from the table)
     def role(f: Func, tab: str) -> str:
@@ -853,7 +853,7 @@ def r13_4(ctx: Ctx):
                         return "gather"
         return "?"
     re_, rw = role(ex, te[0]), role(du, td[0])
-    ctx.ob("R13.4", ex, "reader role=%s writer role=%s" % (re_, rw), {re_, rw} == {"scatter", "gather"},
+    ctx.ob(rule, ex, "reader role=%s writer role=%s" % (re_, rw), {re_, rw} == {"scatter", "gather"},
            "one side scatters by the table and the other gathers by it (inverse permutations)", node=ex.node)
     # nine numbers whenever any off-diagonal component is non-zero
     ifs = [n_ for n_ in walk_no_nested(du.node) if isinstance(n_, ast.If)]
@@ -872,7 +872,7 @@ def r13_4(ctx: Ctx):
             body9 = any(isinstance(x, ast.Assign) and const_int(x.value) == 9 for x in n_.body)
             else3 = any(isinstance(x, ast.Assign) and const_int(x.value) == 3 for x in n_.orelse)
             okt = whole and body9 and else3
-    ctx.ob("R13.4", du, "triclinic test `%s`" % shown, okt,
+    ctx.ob(rule, du, "triclinic test `%s`" % shown, okt,
            "all nine components are written as soon as any of the six off-diagonal ones is non-zero (of either sign), "
            "three otherwise", node=ifs[0] if ifs else du.node)
     # number of components written: 3 or 9
